@@ -173,6 +173,9 @@ inductive Pred where
   | index (k : Nat)
   /-- `[last()]` -/
   | last
+  /-- `[function-available('concat')]` / `[element-available('xsl:if')]`: always true; generated because their
+  evaluation resolves a QName at run time -/
+  | always
 deriving Repr, DecidableEq
 
 structure Step where
@@ -203,6 +206,7 @@ def parsePred (s : String) : Option Pred :=
   if ¬ s.endsWith "]" then none else
   let b := (s.dropEnd 1).toString
   if b = "last()" then some .last
+  else if b = "function-available('concat')" ∨ b = "element-available('xsl:if')" then some .always
   else if b.toNat?.isSome then b.toNat?.map .index
   else if b.startsWith "not(@" ∧ b.endsWith ")" then some (.notAttr ((b.drop 5).dropEnd 1).toString)
   else if b.startsWith "@" then
@@ -253,6 +257,7 @@ def evalPred (d : Doc) (n : CNode) (pos size : Nat) : Pred → Bool
   | .attrEq a v => (d.attrsOf n).any fun c => c.name = a ∧ c.value = v
   | .notAttr a => ! (d.attrsOf n).any fun c => c.name = a
   | .hasChild nm => (d.childrenOf n).any fun c => c.kind = .elem ∧ c.name = nm
+  | .always => true
   | .index k => pos = k
   | .last => pos = size
 
@@ -340,6 +345,12 @@ def parseSArg (s : String) : SArg :=
   if s = "name()" then .name
   else if s = "position()" then .position
   else if s = "last()" then .last
+  -- functions that resolve a QName at run time (values fixed by the generated stylesheets: `concat` and `xsl:if` exist,
+  -- XSLT version 1, decimal formats `df` / `q:df` declared with the default symbols)
+  else if s = "function-available('concat')" ∨ s = "element-available('xsl:if')" then .lit "true"
+  else if s = "system-property('xsl:version')" then .lit "1"
+  else if s.startsWith "format-number(count(" ∧ (s.endsWith "),'0','df')" ∨ s.endsWith "),'0','q:df')") then
+    .count (parseUPath (((s.drop 20).toString.splitOn "),'0','").headD ""))
   else if s.startsWith "'" ∧ s.endsWith "'" then .lit ((s.drop 1).dropEnd 1).toString
   else if s.startsWith "string(" ∧ s.endsWith ")" then .str (parseUPath ((s.drop 7).dropEnd 1).toString)
   else if s.startsWith "count(" ∧ s.endsWith ")" then .count (parseUPath ((s.drop 6).dropEnd 1).toString)
@@ -348,7 +359,8 @@ def parseSArg (s : String) : SArg :=
     | _ => .lit "?"
 
 def isScalar (s : String) : Bool :=
-  s = "name()" || s = "position()" || s = "last()" || s.startsWith "'" || s.startsWith "string(" || s.startsWith "count(" || (s.splitOn "='").length = 2
+  s = "name()" || s = "position()" || s = "last()" || s.startsWith "function-available(" || s.startsWith "element-available(" ||
+  s.startsWith "system-property(" || s.startsWith "format-number(" || s.startsWith "'" || s.startsWith "string(" || s.startsWith "count(" || (s.splitOn "='").length = 2
 
 def parseUse (s : String) : UseExpr :=
   if s.startsWith "concat(" ∧ s.endsWith ")" then
